@@ -159,6 +159,8 @@ def run_one(driver, cfg, seed=None, replay=None, timeout=None):
     ch = Choices(seed=seed, replay=replay)
     gc_was = gc.isenabled()
     gc.disable()
+    from sim import sutstate
+    restored = sutstate.restore()
     if timeout:
         old = signal.signal(signal.SIGALRM, _alarm)
         signal.alarm(int(timeout))
@@ -171,6 +173,10 @@ def run_one(driver, cfg, seed=None, replay=None, timeout=None):
         if gc_was:
             gc.enable()
     res.choices = ch.recorded
+    if restored:
+        # process-wide sigtools state left behind by an earlier run was put back (0 on a tree
+        # that keeps none)
+        res.counters['sut_process_state_restored_before_run'] += 1
     return res
 
 
@@ -244,6 +250,9 @@ class Totals(object):
         self.digests[c['index']] = c['digest']
 
 
+_known_cache = [None]
+
+
 def run_batch(driver, cfg, tier, budget_s=None, max_runs=None, workers=None, label=None,
               stop_on_violation=True, progress=True, explicit=None):
     """Seeded search: run indices 0,1,2.. until the budget or max_runs is used up."""
@@ -297,7 +306,11 @@ def run_batch(driver, cfg, tier, budget_s=None, max_runs=None, workers=None, lab
                     totals.harness_errors.append('worker died: {0!r}'.format(e))
                     stop = True
             if totals.violations and stop_on_violation:
-                stop = True
+                # known findings do not end the search: only a violation nothing lists does
+                if _known_cache[0] is None:
+                    _known_cache[0] = load_known_findings()
+                if any(match_known(v, _known_cache[0]) is None for v in totals.violations):
+                    stop = True
             if totals.harness_errors:
                 stop = True
             if not stop:
@@ -340,6 +353,8 @@ def match_known(v, findings):
             if field in m and m[field] != getattr(v, field):
                 ok = False
         if 'symptom_regex' in m and not re.search(m['symptom_regex'], v.symptom):
+            ok = False
+        if 'clause_regex' in m and not re.search(m['clause_regex'], v.clause):
             ok = False
         if 'template_regex' in m and not re.search(m['template_regex'], v.template):
             ok = False
@@ -507,4 +522,6 @@ def warmup(mod=None):
     if mod is not None and hasattr(mod, 'warmup'):
         mod.warmup()
     gc.collect()
+    from sim import sutstate
+    sutstate.capture()
     _warm[0] = True
